@@ -561,6 +561,11 @@ func (s *IndexedState) remHooks(ctx *Context) error {
 		defer s.withoutPrivilege(ctx)
 		for id := range s.IdToFact {
 			err := s.remHook(ctx, s, id)
+			if _, gone := err.(*NotFoundError); gone {
+				// The fact has expired (or has gone with one
+				// that has): nothing to do.
+				continue
+			}
 			if err != nil {
 				Log(ERROR, ctx, "IndexedState.Clear", "state", s.Name, "error", err,
 					"id", id, "when", "remHook")
